@@ -215,6 +215,8 @@ def _coords(rng, kind, N, lo, hi):
 
 
 def correspondence(ctx):
+    import warnings
+    warnings.simplefilter('ignore', RuntimeWarning)      # integer-typed coordinates wrap around in the all-integer recurrences (both routes alike)
     p = P()
     rng = ctx.rng
     deep = ctx.thorough or ctx.widen      # untranslatable items: widen the sweep to the thorough one
@@ -546,26 +548,30 @@ def replay(inp):
 
 
 MANIFEST_ENTRY = {
-    'technique': 'Lean 4 proof by induction over the sweep control flow + translator-generated shape/family facts + exhaustive '
-                 'small-scope differential testing of every *_seq against its scalar function',
-    'text': ('PROVED for all inputs (Lean 4, no sorry, standard axioms): `sweep_eq_map` — for EVERY recurrence family and EVERY '
-             'non-empty strictly ascending order list (gapped, any start, any length) the one-pass sweep with a running index returns '
-             'exactly `ns.map eval`, in order, one row per order; instantiated for jacobi/legendre/Qcon, hermite He/H, laguerre, '
-             'dickson1/2, Qbfs and the jacobi/hermite derivative sweeps; `table_lookup_eq_map` for every list of (n,m) pairs in any order '
-             'with repeats (zernike_nm_seq tables); the NumPy broadcasting shape rule: constants of shape (N,1,…,1) scale mode k by c_k for '
-             'every N and every coordinate shape, while (N,1) raises / aliases / mis-shapes for 2-D / (N,·) / 0-D coordinates.  '
-             'TRANSLATED from the current source and re-checked by the kernel each run: the shape of the constants in all eight Chebyshev '
-             '*_seq functions (symbolic in N and x.ndim), their Jacobi parameters and numerators (= those of the scalar functions), the '
-             'family and parameter that fill the xy_seq tables (theorem: term (m,n) = x^m y^n for all m,n), the zernike_nm_seq table '
-             'arguments and look-up index (= those of zernike_nm).  MODELLED AND COMPARED: every *_seq vs a Python loop over its scalar '
-             'function for all 255 ascending subsets of {0..7} + random gapped lists to order 40 on coordinate shapes (), (5,), (3,4), '
-             '(4,4), (len(ns),3), (2,3,4); vs the Lean sweep on Float and exactly on Rat; pair lists for Zernike / Zernike-der / 2D-Q / XY.  '
-             'ALSO TRANSLATED statement by statement (running index, conditional row writes into np.empty rows, early returns, for loop) '
-             'and PROVED equal to ns.map of the translated single-order function for every non-empty strictly ascending list: the bodies of '
-             'jacobi_seq, hermite_He_seq, hermite_H_seq, hermite_He_der_seq, hermite_H_der_seq, laguerre_seq, dickson1_seq, dickson2_seq.  '
-             'NOT COVERED: non-ascending order lists (outside the property); jacobi_der_seq, Qbfs_seq, laguerre_der_seq, zernike_nm_seq, '
-             'Q2d_seq, xy_seq bodies are not translated statement by statement (hand model + differential test; for the Chebyshev, '
-             'Legendre, Qcon wrappers the translated facts are their parameters, numerators and broadcast shapes).'),
-    'note': ('Trusted: Lean kernel + propext/Classical.choice/Quot.sound; tools/gen_c08.py symbolic shape reading of np.ones/np.squeeze/'
-             'reshape/newaxis; NumPy broadcasting = its shape rule.'),
+    'technique': 'Lean 4 proof by induction over the sweep control flow, on the hand model and on the statement-level translation of eight '
+                 '*_seq bodies + translator-generated shape/dtype/family facts + exhaustive small-scope differential testing of every *_seq',
+    'text': ('PROVED for all inputs (Lean 4, no sorry, standard axioms): `sweep_eq_map` — for EVERY recurrence family and EVERY non-empty '
+             'strictly ascending order list the one-pass sweep with a running index returns `ns.map eval`, in order, one row per order (hand '
+             'model of the control flow; instances for jacobi, hermite He/H, laguerre, dickson1/2, Qbfs and the jacobi/hermite derivative '
+             'sweeps); `table_lookup_eq_map` for every list of pairs; the NumPy broadcasting shape rule.  TRANSLATED from the current source '
+             'and re-checked by the kernel each run: the bodies of jacobi_seq, hermite_He_seq, hermite_H_seq, hermite_He_der_seq, '
+             'hermite_H_der_seq, laguerre_seq, dickson1_seq, dickson2_seq statement by statement (running index, conditional row writes, early '
+             'returns, loop; state addressed by generated variable-name accessors) — each PROVED to return ns.map of the TRANSLATED single-order '
+             'function for every non-empty strictly ascending list; the dtype of the rows of all nine value *_seq (theorem: it can hold floats '
+             'for bool/int/float/complex coordinates — false on the pinned tree); the shape of the constants in the eight Chebyshev *_seq '
+             '(symbolic in N and x.ndim), their parameters and numerators (mode formula = translated body of cheby1..4); legendre_seq / Qcon_seq '
+             'parameters, argument and factor (= those of legendre / Qcon); the family that fills the xy_seq tables (term (m,n) = x^m y^n); the '
+             'body of the final loop of zernike_nm_seq (= translated body of zernike_nm, for any sin/cos/sqrt).  MODELLED AND COMPARED: all 22 '
+             'one-index *_seq vs a Python loop over the scalar function, ROW BY ROW at 1e-10 of the row, for all 255 ascending subsets of {0..7}, '
+             'all subsets of moving windows {k..k+4} up to order 39, random gapped lists to order 40, shapes (), (5,), (3,4), (4,4), '
+             '(len(ns),3), (2,3,4), coordinate dtypes float64/int64/int32/float32/complex128, order lists as list/tuple/ndarray/range/generator, '
+             'pure_call (arguments not modified, second call equal); Lean sweep on Float and exactly on Rat; pair lists (both signs, shared |m|, '
+             'repeats, norm True/False, int/float32 coordinates) for Zernike / Zernike-der / 2D-Q / XY with independent oracles (x^m y^n on '
+             'meshgrids with the default flag, 2D-Q azimuthal convention).  NOT COVERED / not tied by translation: jacobi_der_seq, Qbfs_seq, '
+             'laguerre_der_seq, legendre_der_seq, zernike_nm_der_seq, Q2d_seq, xy_seq table-building loops and the table extents of '
+             'zernike_nm_seq (hand model + differential test only); integer coordinates in the *_der sweeps (handled under C09); generators as '
+             '`ns` for cheby2/4 (np.asarray(ns)); non-ascending lists and python-scalar x (outside the property).'),
+    'note': ('Trusted: Lean kernel + propext/Classical.choice/Quot.sound; tools/gen_c08.py (statement translation; symbolic shape reading of '
+             'np.ones/np.squeeze/reshape/newaxis; dtype expressions x.dtype / np.result_type(x, 1.0) / config.precision); NumPy broadcasting = its '
+             'shape rule; copy-vs-view of out[k] = v and in-place products on shared table rows are tested (norm=False, +-m pairs), not modelled.'),
 }
